@@ -527,6 +527,16 @@ func genStageCache(r *Rand) []string {
 	}
 	now := 0
 	tick := func() int { now++; return now }
+	if r.Chance(0.4) {
+		// a leftover companion of a stalled transfer: Recover's cache window then starts at its mtime - 24 h,
+		// at some other time of day than now
+		q := genFile(r, "q", "")
+		ops = append(ops, "recover 0", fmt.Sprintf("prepare %s %d 0", esc(q.name), len(q.body)))
+		if len(q.cuts) > 2 {
+			ops = append(ops, q.recvOp(0))
+			ops = append(ops, fmt.Sprintf("chtime q cmp -%d", r.Range(1000, 170000)), "crash")
+		}
+	}
 	ops = append(ops, "recover 0")
 	for round := 0; round < 2; round++ {
 		for _, o := range olds {
@@ -563,13 +573,17 @@ func genStageCache(r *Rand) []string {
 		g := genFile(r, o.f.name, "")
 		g.renamed = o.f.renamed
 		if r.Chance(0.25) {
-			g = o.f // the delivered version itself: a stale duplicate, may be removed
+			// the delivered version itself: a stale duplicate, may be removed. The sender asks before it sends
+			// (Receive itself consults only the in-memory cache: hypothesis S8)
+			g = o.f
+			ops = append(ops, fmt.Sprintf("received %s %s %s %s %d 0 %d %d", esc(g.name), esc(g.renamed), esc(g.prev), esc(g.hash), -(o.age + 50), g.cuts[1], tick()))
 		}
 		ops = append(ops, fmt.Sprintf("prepare %s %d %d", esc(g.name), len(g.body), tick()))
 		b, e := g.cuts[0], g.cuts[1]
 		ops = append(ops, fmt.Sprintf("recv %s %d %d %s %d", g.meta(), b, e, tokOrDash(g.body[b:e]), tick()))
 		ops = append(ops, fmt.Sprintf("chtime %s part %d", esc(g.name), []int{-3600, -90000, -200000, -400000}[r.Intn(4)]))
-		if r.Chance(0.5) {
+		if g != o.f && r.Chance(0.5) {
+			// (not between the question and the retransmission of the delivered version itself: S8)
 			ops = append(ops, fmt.Sprintf("cleancache %d", tick()))
 		}
 		ops = append(ops, "observe", fmt.Sprintf("cleanstrays %d", tick()), "observe", "scan")
